@@ -15,6 +15,9 @@ import ASV.Drv.J
 import ASV.Drv.C03
 import ASV.Spec.Components
 import ASV.Model.DetectRecord
+import ASV.Model.Rotate
+import ASV.Model.Pipeline
+import ASV.Drv.C05
 namespace ASV.Drv.C07
 open Lean ASV ASV.Drv ASV.Rules ASV.Proto
 
@@ -37,7 +40,20 @@ def areaOfJson (j : Json) : R Components.Area := do
 def regionOfJson (j : Json) : R (Loc × List Nat) := do
   return (← locOfJson (← idx j 0), ← listOf asNat (← idx j 1))
 
-def runOne (len : Int) (circ : Bool) (allRules : List RuleM) (j : Json) : R Json := do
+/-- two reported protoclusters of one rule must be further apart than the rule's cutoff (C03
+    `reported_protoclusters_far_apart_ring`): no shared base, at least `cutoff` bases in between -/
+def apartOK (L : Int) (rules : List RuleM) (impl : List Chains.ImplPC) : Bool :=
+  let rec go : List Chains.ImplPC → Bool
+    | [] => true
+    | p :: rest =>
+      (rest.all fun q =>
+        p.rule != q.rule ||
+        match rules.find? (·.name == p.rule) with
+        | some rule => !sharesPts p.core q.core && decide (rule.cutoff ≤ specDistFull L p.core q.core)
+        | none => true) && go rest
+  go impl
+
+def runOne (len : Int) (circ : Bool) (allRules : List RuleM) (base : List GeneInfo) (j : Json) : R Json := do
   let genes ← listOf C03.geneOfJson (← fld j "genes")
   let order ← listOf asNat (← fld j "order")
   let ordered := order.filterMap fun n => genes.find? (·.id == n)
@@ -72,7 +88,20 @@ def runOne (len : Int) (circ : Bool) (allRules : List RuleM) (j : Json) : R Json
                   ("clash", toJson (circ && (Components.fullRecordClash len (areas.map (·.2))
                                              || Components.fullRecordClash len (regs.map (·.1)))))])
     | _, _ => pure Json.null
-  return jObj [("model", model),
+  -- the whole pipeline as the composition of the C03, C05 and C06 models
+  let pipe := match Pipe.run r rules with
+    | .ok res =>
+      let protoKey := fun (p : CC.Proto) => jArr [Json.str p.product, natsJ (Pipe.genesIn r p.core)]
+      jObj [("cands", jArr (res.cands.map fun c =>
+                jArr [Json.str (C05.kindToStr c.kind), jArr (c.members.map protoKey)])),
+            ("regions", jArr (res.regions.map fun x => natsJ (Pipe.genesIn r x.1)))]
+    | .error e => jObj [("err", Json.str e)]
+  let k := intFD j "k" 0
+  let rot := jArr (base.map fun g => jArr [toJson g.id, locToJson (Rot.rotateLoc g.loc k len)])
+  let apart := match impl with
+    | some pcs => apartOK (if circ then len else 0) rules pcs
+    | none => true
+  return jObj [("model", model), ("pipe", pipe), ("rot", rot), ("apart", toJson apart),
     ("spec", jObj [("ok", toJson v.ok), ("why", Json.str v.why), ("known", Json.str v.known),
                    ("groups", toJson v.groups), ("maxgroup", toJson v.maxGroup), ("long", toJson v.longChain)]),
     ("chains", jArr chains), ("regions", regions),
@@ -82,7 +111,11 @@ def handle (j : Json) : R Json := do
   let len ← intF j "len"
   let circ ← boolF j "circ"
   let allRules ← listOf C03.ruleOfJson (← fld j "rules")
-  let runs ← listOf (runOne len circ allRules) (← fld j "runs")
+  let runsJ ← arrF j "runs"
+  let base ← match runsJ.head? with
+    | some r0 => listOf C03.geneOfJson (← fld r0 "genes")
+    | none => pure []
+  let runs ← runsJ.mapM (runOne len circ allRules base)
   return jObj [("runs", jArr runs)]
 
 end ASV.Drv.C07
